@@ -189,3 +189,7 @@ def run(tier: str) -> int:
         key = {'op': r['op'], 'clause': mm[1], 'types': '/'.join(r.get('at', []))}
         rep.mismatch(key, {k: v for k, v in r.items() if k != 'rows'})
     return rep.finish()
+
+
+def replay(path: str) -> int:
+    return core.replay_saved('C05', 'NumberOpsTrace', path, rerun=globals().get('_rerun'))
